@@ -289,6 +289,31 @@ fn bx_ring() {
             }
         }
     }
+    // many tags per sample in one window that crosses the wrap point: the order of same-sample tags must be the commit
+    // order however many there are (an unstable sort only shows beyond a few dozen elements)
+    if res.is_ok() {
+        'many: for pages in [1usize, 3] {
+            let cap = CAP * pages;
+            for off in [1, cap / 2, cap - 1] {
+                let mut w = World::with_pages(pages);
+                let mut tags = vec![];
+                let mut id = 5000u64;
+                for p in 0..cap {
+                    for _ in 0..(if p % 2 == 0 { 13 } else { 2 }) {
+                        tags.push((p, id));
+                        id += 1;
+                    }
+                }
+                for op in [Op::Acquire(off), Op::Commit(off, vec![]), Op::Consume(off), Op::Acquire(cap), Op::Commit(cap, tags), Op::Consume(1), Op::Consume(cap - 1)] {
+                    if let Err(e) = w.apply(&op) {
+                        res = Err(e);
+                        break 'many;
+                    }
+                    count += 1;
+                }
+            }
+        }
+    }
     // random walk
     let mut steps = 0u64;
     if res.is_ok() {
